@@ -31,9 +31,12 @@ static void mk_sec_opt(cfg_opt_t *o, unsigned n)
 		o->values[i]->section = sec;
 	}
 }
+static int cfgv_ctx_filter(cfg_t *c, cfg_opt_t *o) { (void)c; (void)o; return 0; }
 static void mk_ctx(cfg_t *cfg)
 {
 	memset(cfg, 0, sizeof *cfg);
+	cfg->pff = nondet_bool() ? cfgv_ctx_filter : NULL;      /* the enclosing context may have a print filter of its own */
+	cfg->comment = nondet_bool() ? "k" : NULL; cfg->title = nondet_bool() ? "T" : NULL;      /* ... an annotation, a title */
 	cfg->name = "root"; cfg->errfunc = cfgv_errfunc; cfg->line = nondet_int(); cfg->flags = k_cfgflags;
 	cfg->filename = nondet_bool() ? "f" : NULL;
 	cfg->path = (cfg_searchpath_t *)&g_simple_store;
@@ -90,7 +93,8 @@ static void b_setopt_sec(unsigned n)
 			CHECK("C01,C16", ns->name != o.name && strcmp(ns->name, "o") == 0, "the instance carries a private copy of the section name");
 			CHECK("C01,C16", value ? (ns->title != NULL && ns->title != value && ns->title[0] == value[0] && ns->title[1] == 0) : ns->title == NULL, "the instance carries a private copy of its title");
 			CHECK("C01,C12", ns->flags == (k_cfgflags | ((k_flags & CFGF_KEYSTRVAL) ? CFGF_KEYSTRVAL : 0)), "the instance inherits the context flags (plus free-form keys when declared so)");
-			CHECK("C19", ns->pff == NULL && ns->comment == NULL, "a new instance has no print filter of its own: it inherits the enclosing one at print time");
+			CHECK("C19", ns->pff == NULL, "a new instance has no print filter of its own: it inherits the enclosing one at print time");
+			CHECK("C15,C01", ns->comment == NULL && ns->path == NULL, "a new instance starts without annotation and without search path of its own (nothing else of the enclosing context leaks into it)");
 			CHECK("C06", ns->line == cfg.line && ns->errfunc == cfg.errfunc && (cfg.filename ? (ns->filename != NULL && ns->filename != cfg.filename && strcmp(ns->filename, "f") == 0) : ns->filename == NULL),
 			      "the instance inherits file name (private copy), line and error function");
 		} else {
